@@ -46,7 +46,12 @@ def write_mc(spec, name, conf, consts, export=True):
 def run_config(run, exe, spec, name, conf, consts, prop, workers=3, env=None, cap_tours=None):
     tla, cfg = write_mc(spec, name, conf, consts)
     # conf["_sim"] = (behaviours per worker, depth): configuration too large for breadth-first search, behaviours from TLC's simulation mode
-    g, info = tlcgraph.run_tlc_graph(tla, cfg, workers=workers, cwd=MC, timeout=3000, simulate=conf.get("_sim"), sim_seed=seed())
+    budget = int(os.environ.get("VERIF_BFS_BUDGET", "1500"))
+    g, info = tlcgraph.run_tlc_graph(tla, cfg, workers=workers, cwd=MC, timeout=3000 if conf.get("_sim") else budget, simulate=conf.get("_sim"), sim_seed=seed())
+    if not conf.get("_sim") and info.get("rc") == 124:
+        run.note("configuration %s/%s: breadth-first search exceeded %d s; using simulation-mode behaviours instead" % (spec, name, budget))
+        run.cov.setdefault("bfs_fallback_to_simulation", []).append(spec + "/" + name)
+        g, info = tlcgraph.run_tlc_graph(tla, cfg, workers=workers, cwd=MC, timeout=3000, simulate=(150, 800), sim_seed=seed())
     if not info["ok"] and not info["violated"]:
         raise ToolFailure("TLC failed on %s/%s: %s" % (spec, name, "\n".join(info["log"][-40:])))
     tours = tlcgraph.build_tours(g, cap_tours=cap_tours)
